@@ -232,4 +232,6 @@ def sized_temporaries():
 
 
 def obligations():  # noqa: F811
-    return _c03_base() + print_at() + helpers_shared_with_c20() + val_helper() + sized_temporaries()
+    from tx.p_c05 import share
+    from tx.p_c09 import initializer_kinds, initializer_positions
+    return _c03_base() + print_at() + helpers_shared_with_c20() + val_helper() + sized_temporaries() + share("init/", initializer_kinds() + initializer_positions())
